@@ -182,7 +182,7 @@ func (sc *scen) judge(cyc []cycle, shards []shardObs, disks []diskObs) []violati
 	// data
 	established := map[string]bool{}
 	gk := func(p *point) string { return fmt.Sprintf("%s/%d", p.RP, p.GS) }
-	for _, o := range sc.obs {
+	for oi, o := range sc.obs {
 		if o.Err != "" || cut(o.T1) {
 			continue
 		}
@@ -196,7 +196,7 @@ func (sc *scen) judge(cyc []cycle, shards []shardObs, disks []diskObs) []violati
 			if seen {
 				newly[gk(p)] = true
 			}
-			ob := map[string]any{"kind": "query", "t0": o.T0, "t1": o.T1, "returned": seen}
+			ob := map[string]any{"kind": "query", "t0": o.T0, "t1": o.T1, "returned": seen, "neighbouring_observations": sc.around(oi, p)}
 			switch {
 			case l.zok && o.T0.After(l.z):
 				if seen {
@@ -352,6 +352,21 @@ func rowsOf(rows []shardRow, db string) []shardRow {
 		if r.DB == db {
 			out = append(out, r)
 		}
+	}
+	return out
+}
+
+// around describes the observations next to observation oi for a witness: when they
+// ran, how many points they returned, and whether they returned p.
+func (sc *scen) around(oi int, p *point) []map[string]any {
+	var out []map[string]any
+	for k := oi - 3; k <= oi+6; k++ {
+		if k < 0 || k >= len(sc.obs) {
+			continue
+		}
+		o := sc.obs[k]
+		out = append(out, map[string]any{"index": k - oi, "t0": o.T0, "t1": o.T1, "error": o.Err,
+			"points_returned": len(o.Seen), "returned_this_point": o.Seen[key(p.RP, p.T)]})
 	}
 	return out
 }
